@@ -124,6 +124,8 @@ def register(chk):
         fn = ob_simple if kind.startswith("bigint_384") else ob_multiply if kind.startswith("bigint_768") else ob_montgomery
         for alias in wordspec_a64.ALIASES[kind]:
             chk.add("a64:%s:alias=%d" % (kind, alias), fn, kind, alias)
+    if not hasattr(chk, "run"):          # registered inside another check (framework.Check.include): nothing to annotate
+        return
     run0 = chk.run
 
     def run():          # c03.main() assigns bounds/trusted after register(): add the AArch64 statements just before the run
